@@ -558,7 +558,7 @@ func (c *SpecCtx) selector(n *ast.SelectorExpr) SV {
 			continue
 		}
 		reg := fieldRegionName(key, f.Name())
-		if _, isStruct := f.Type().Underlying().(*types.Struct); isStruct {
+		if _, isStruct := f.Type().Underlying().(*types.Struct); isStruct && isObjectStruct(f.Type()) {
 			nr := e.nestedRef(reg, base)
 			e.nested[nr.S] = &NestedInfo{Owner: key, Field: f.Name(), Base: base, Typ: f.Type()}
 			return SV{V: nr, T: types.NewPointer(f.Type())}
@@ -940,6 +940,26 @@ func (c *SpecCtx) call(n *ast.CallExpr) SV {
 			return SV{V: v}
 		}
 		return SV{V: e.freshConst("noicall", SAny)}
+	case "atentry":
+		// atentry(N, x): value of local x when loop N of this function was entered (on this path)
+		if c.fr == nil {
+			return c.bad("atentry outside a function")
+		}
+		nn := c.intArg(n.Args[0])
+		snap, _ := c.st.Ghost[fmt.Sprintf("loopsnap:%s:%s", e.fnName[c.fr.Fn], nn.S)].(map[string]Val)
+		id, ok := n.Args[1].(*ast.Ident)
+		if snap == nil || !ok {
+			return c.bad("atentry: loop %s not entered on this path", nn.S)
+		}
+		v, ok := snap[id.Name]
+		if !ok {
+			return c.bad("atentry: no local %s at loop entry", id.Name)
+		}
+		var ty types.Type
+		if cell, ok := c.fr.Cells[id.Name]; ok {
+			ty = cell.Typ
+		}
+		return SV{V: v, T: ty}
 	case "now":
 		// now(x): the current value of a parameter or local (parameters otherwise denote their entry values)
 		sub := c.sub()
@@ -1145,6 +1165,7 @@ var reflectUF = map[string]ufSig{
 	"rv_isnil": {[]Sort{"X_reflect.Value"}, SBool}, "rv_canset": {[]Sort{"X_reflect.Value"}, SBool},
 	"rv_iface": {[]Sort{"X_reflect.Value"}, SAny}, "rv_of": {[]Sort{SAny}, "X_reflect.Value"},
 	"rv_elem": {[]Sort{"X_reflect.Value"}, "X_reflect.Value"},
+	"rv_pointer": {[]Sort{"X_reflect.Value"}, SInt},
 }
 
 // SpecDef: `def name(params) = expr` in a type block.
